@@ -156,6 +156,11 @@ func identEnd(s string, i int) int {
 	return i
 }
 
+//xvc:lemma induct=i measure=len(s)-i trigger=identEnd(s,i)
+func lemmaIdentEndRange(s string, i int) bool {
+	return implies(0 <= i && i <= len(s), i <= identEnd(s, i) && identEnd(s, i) <= len(s))
+}
+
 func sameStrs(a []string, b []string) bool {
 	return len(a) == len(b) && forall(0, len(a), func(i int) bool { return a[i] == b[i] })
 }
@@ -398,7 +403,7 @@ func isQuote(c byte) bool { return c == '"' || c == '\'' || c == '`' }
 
 //@ func baseNextToken
 //@   props C10 C11 C08
-//@   requires lexInv(l)
+//@   requires l != nil && lexInv(l)
 //@   modifies l.position, l.readPosition, l.CurrentChar, l.Line, l.Column
 //@   ensures [cursor] lexInv(l)
 //@   ensures [start.single] implies(!isTwoCharOp(byteAt(l.input, old(l.position)), byteAt(l.input, old(l.position)+1)), result.Start == posOf(l.input, old(l.position)))
@@ -411,7 +416,46 @@ func isQuote(c byte) bool { return c == '"' || c == '\'' || c == '`' }
 //@   ensures [kw] implies(specLetter(old(l.CurrentChar)), result.Type == token.SpecLookup(result.Literal) && l.position == identEnd(l.input, old(l.position)))
 //@   ensures [num] implies(specDigit(old(l.CurrentChar)), result.Type == token.INT || result.Type == token.FLOAT)
 //@   ensures [op.type] implies(old(l.position) < len(l.input) && !specLetter(old(l.CurrentChar)) && !specDigit(old(l.CurrentChar)) && !isQuote(old(l.CurrentChar)), result.Type == specTokType(old(l.CurrentChar), byteAt(l.input, old(l.position)+1)))
-//@   ensures [op.text] implies(old(l.position) < len(l.input) && !specLetter(old(l.CurrentChar)) && !specDigit(old(l.CurrentChar)) && !isQuote(old(l.CurrentChar)), litEq(result.Literal, l.input, old(l.position), l.position))
+//@   ensures [op.text] implies(old(l.position) < len(l.input) && old(l.CurrentChar) < 128 && !specLetter(old(l.CurrentChar)) && !specDigit(old(l.CurrentChar)) && !isQuote(old(l.CurrentChar)), litEq(result.Literal, l.input, old(l.position), l.position))
 //@   ensures [quote.type] implies(isQuote(old(l.CurrentChar)), result.Type == ite(old(l.CurrentChar) == '`', token.RAW_STRING, token.STRING))
 //@   ensures [nl] result.AfterNewline == l.hadNewlineBefore
 //@   ensures [trivia] sameStrs(result.LeadingComments, l.leadingComments)
+
+// Every function stored in Lexer.nextToken behaves like baseNextToken (plugin interceptors are assumed to be
+// pass-through: interceptor(l, next) == next() -- the hypothesis of property C04).
+//@ fieldcontract Lexer.nextToken lexer.baseNextToken
+
+//@ func (l *Lexer) NextToken
+//@   props C10 C11 C04 C15
+//@   requires lexInv(l)
+//@   modifies l.position, l.readPosition, l.CurrentChar, l.Line, l.Column, l.hadNewlineBefore, l.leadingComments
+//@   ensures [cursor] lexInv(l)
+//@   ensures [start] result.Start == posOf(l.input, skipTrivia(l.input, old(l.position)))
+//@   ensures [end] result.End == posOf(l.input, l.position-1) || result.End == posOf(l.input, l.position)
+//@   ensures [tiling] l.position >= skipTrivia(l.input, old(l.position))
+//@   ensures [progress] implies(result.Type != token.EOF, l.position > skipTrivia(l.input, old(l.position)))
+//@   ensures [eof] (result.Type == token.EOF) == (skipTrivia(l.input, old(l.position)) >= len(l.input))
+//@   ensures [eof.idempotent] implies(old(l.position) >= len(l.input), l.position == old(l.position) && result.Type == token.EOF)
+//@   ensures [slice] implies(specLetter(byteAt(l.input, skipTrivia(l.input, old(l.position)))) || specDigit(byteAt(l.input, skipTrivia(l.input, old(l.position)))), result.Literal == l.input[skipTrivia(l.input, old(l.position)):l.position])
+//@   ensures [kw] implies(specLetter(byteAt(l.input, skipTrivia(l.input, old(l.position)))), result.Type == token.SpecLookup(result.Literal) && l.position == identEnd(l.input, skipTrivia(l.input, old(l.position))))
+//@   ensures [nl] result.AfterNewline == hasNL(l.input, old(l.position), skipTrivia(l.input, old(l.position)))
+
+//@ func (l *Lexer) useTokenInterceptor
+//@   props C04 C10
+//@   funcvar interceptor passthrough
+//@   modifies l.nextToken
+
+//@ func (l *Lexer) useTokenInterceptor$1
+//@   props C04 C10
+//@   sameas lexer.baseNextToken
+//@   funcvar next lexer.baseNextToken
+//@   funcvar interceptor passthrough
+
+//@ func newWithOptions
+//@   props C10 C04 C14
+//@   ensures [fresh] result != nil && lexInv(result) && result.position == 0 && result.input == input
+//@   loop 1 invariant [state] l != nil && l.position == 0 && l.readPosition == 0 && l.Column == -1 && l.Line == 0 && l.CurrentChar == 0 && l.input == input
+
+//@ func (lb *Builder) Build
+//@   props C10 C14 C04
+//@   ensures [fresh] result != nil && lexInv(result) && result.position == 0 && result.input == input
